@@ -35,6 +35,8 @@ int64_t  g_clock_ns;
 uint32_t g_rd[64];
 size_t   g_rd_n, g_rd_pos;
 uint64_t g_clock_reads, g_rd_reads;
+int64_t  g_drift_ns;    // armed: every further read of the clock returns a value this much later than the one before
+uint64_t g_drift_reads; // reads since it was armed
 
 // ---- scheduler state (only the baton holder touches it)
 constexpr size_t kMaxEvents = 1u << 16;
@@ -70,6 +72,7 @@ struct G
     int      dyn_stall_client;
     uint32_t dyn_stall_until;
     uint32_t relock;
+    uint32_t bad_unlock; // unlock of the container's lock by a client that does not hold it
     int      cur_op[kMaxClients];
     Owned    owned[kMaxOwned];
     int      nowned;
@@ -349,6 +352,12 @@ void     sim_thread(bool on) { tls_sim = on; }
 void     clock_set(int64_t ns) { g_clock_ns = ns; }
 int64_t  clock_get() { return g_clock_ns; }
 uint64_t clock_reads() { return g_clock_reads; }
+void     clock_drift(int64_t per_read_ns)
+{
+    g_drift_ns    = per_read_ns;
+    g_drift_reads = 0;
+}
+uint64_t clock_drift_reads() { return g_drift_reads; }
 uint64_t rd_reads() { return g_rd_reads; }
 void     rd_set(const uint32_t* vals, size_t n)
 {
@@ -386,6 +395,7 @@ void begin_run(const Spec& spec)
     g.dyn_stall_client = -1;
     g.dyn_stall_until  = 0;
     g.relock           = 0;
+    g.bad_unlock       = 0;
     g.nev                            = 0;
     g.nowned                         = 0;
     g.thash                          = 0xcbf29ce484222325ULL;
@@ -498,6 +508,7 @@ uint32_t preemptions() { return g.preempt; }
 uint32_t stalls_fired() { return g.stalls; }
 uint32_t blocked_fired() { return g.blocked; }
 uint32_t relock_fired() { return g.relock; }
+uint32_t bad_unlocks() { return g.bad_unlock; }
 uint32_t spin_yields() { return g.spin_yields; }
 uint32_t shared_seen() { return g.shared_seen; }
 uint32_t shared_fired() { return g.shared_fired; }
@@ -608,6 +619,14 @@ extern "C"
             return __real_pthread_mutex_unlock(m);
         }
         bool in_range = ((const void*)m >= g.spec.obj_lo && (const void*)m < g.spec.obj_hi);
+        if (in_range)
+        {
+            // releasing the container's lock without holding it (double unlock, unlock on a path that
+            // never locked): undefined for a default mutex, and it ends somebody else's critical section
+            Owned* o = find_owned(m);
+            if (!o || o->owner != self)
+                ++g.bad_unlock;
+        }
         clear_owner(m);
         if (g.held[self] > 0)
             --g.held[self];
@@ -711,6 +730,12 @@ extern "C"
             return __real_pthread_rwlock_unlock(l);
         }
         bool in_range = ((const void*)l >= g.spec.obj_lo && (const void*)l < g.spec.obj_hi);
+        if (in_range)
+        {
+            Owned* o = find_owned(l);
+            if (!o || (o->owner != self && !(o->readers & (1u << self))))
+                ++g.bad_unlock;
+        }
         if (Owned* o = find_owned(l))
         {
             if (o->owner == self)
@@ -743,7 +768,10 @@ extern "C"
         int self = tls_client;
         if (self >= 0 && g.active && g.held[self] == 0)
             point(EV_NOW, g.cur_op[self], 0);
-        return std::chrono::steady_clock::time_point(std::chrono::nanoseconds(g_clock_ns));
+        int64_t t = g_clock_ns;
+        if (g_drift_ns)
+            t += (int64_t)(g_drift_reads++) * g_drift_ns; // the first read still returns the step's instant
+        return std::chrono::steady_clock::time_point(std::chrono::nanoseconds(t));
     }
 
     // -fsanitize-coverage=trace-pc-guard callbacks of the container translation units:
